@@ -288,18 +288,20 @@ def _run_symbolic(ob, case, res, tmo, seed):
         # much harder for the solver than its members, and a named goal is what a violation report needs
         stop = False
         for l, t in terms:
+            # 1. z3's rewriter, under a short budget (it can blow up on deep if-then-else nests)
+            ts = t
             try:
-                if canon.closes(t):
-                    res['backend']['gf2-canon'] = res['backend'].get('gf2-canon', 0) + 1
-                    continue
-            except RecursionError:
-                pass
-            ts = z3.simplify(t)
+                g = z3.Goal(); g.add(t)
+                rr = z3.TryFor(z3.Tactic('simplify'), 8000)(g)
+                ts = rr[0].as_expr() if len(rr) == 1 else t
+            except z3.Z3Exception:
+                ts = t
             if z3.is_true(ts):
                 res['backend']['rewriter'] = res['backend'].get('rewriter', 0) + 1
                 continue
+            # 2. the GF(2)-affine / adder canonical form
             try:
-                if canon.closes(ts):
+                if canon.closes(t) or (ts is not t and canon.closes(ts)):
                     res['backend']['gf2-canon'] = res['backend'].get('gf2-canon', 0) + 1
                     continue
             except RecursionError:
